@@ -496,6 +496,9 @@ func (in *Interp) callFunction(fn *ssa.Function, args []Value, bindings []Value)
 	if ix := in.sh.intrinsic(fn); ix != nil {
 		return ix(in, fn, args)
 	}
+	if in.sched != nil && in.sched.explore && preemptCalls[fn.String()] {
+		in.preemptPoint() // store operations are synchronisation points of the modelled libraries
+	}
 	if len(in.abstract) > 0 && in.abstract[fn.String()] {
 		if ax, ok := abstractStubs[fn.String()]; ok {
 			in.abstractUsed = true
